@@ -17,3 +17,5 @@ for _w in ("hset",):
   E3("c03_hash_" + _w, "HGET, HEXISTS, HLEN, then " + _w.upper() + " f on a 1-field hash: overwrite vs add, counts, key removed when emptied", ["StorageEngine::hset", "hget", "hdel", "hlen", "hexists"], "1 + 1 symbolic fields; unwind 6")
 for nm in ("lpush", "sadd", "hset", "lpop", "lrange", "hdel"):
     E3("c03_wrongtype_" + nm, "%s against a string key: WRONGTYPE, dataset unchanged, watchers not notified" % nm.upper(), ["StorageEngine::" + nm], "2-byte string pre-state", tier="quick" if nm in ("lpush", "hset") else "thorough")
+E3("c03_sdiff_missing_middle", "SDIFF a m b with a = {x,y} symbolic, m missing, b = {z} symbolic: a missing key in the middle is an empty set and later keys are still subtracted", ["StorageEngine::sdiff"], "3 symbolic one-byte members over 2 sets + 1 missing key; unwind 6", props=("C03",))
+# c03_lrem_minus1 / c03_lrem_plus1: CBMC out of memory even at 45 GB on the unchanged tree (drain(..).rev() + push_front) - LREM stays outside the claim
